@@ -85,7 +85,32 @@ impl BG {
 
     fn fragment(&mut self) -> Vec<Stmt> {
         let mut v = Vec::new();
-        match self.rng.below(20) {
+        match self.rng.below(22) {
+            20 => {
+                // register holds a known constant and is compared with a VARIABLE (not a constant)
+                let r = self.reg();
+                let k = self.small();
+                let a = self.scalar();
+                if self.rng.chance(1, 2) {
+                    v.push(assign(LV::Var(a), num(if self.rng.chance(1, 2) { k } else { k ^ 1 })));
+                }
+                v.push(assign(r.clone(), num(k)));
+                let op = *self.rng.pick(&[BinOp::Eq, BinOp::Ne]);
+                v.push(Stmt::If(bin(op, Expr::Lv(r), lvv(a)), Box::new(assign(LV::Var(C), num(1))), Some(Box::new(assign(LV::Var(C), num(2))))));
+            }
+            21 => {
+                // counted loop whose bound is a variable that may equal the start value
+                let r = self.reg();
+                let a = self.scalar();
+                v.push(assign(LV::Var(a), num(self.rng.below(3) as i32)));
+                v.push(assign(LV::Var(N), num(0)));
+                v.push(Stmt::For(
+                    Some(Expr::Assign(r.clone(), Box::new(num(0)))),
+                    Some(bin(BinOp::Ne, Expr::Lv(r.clone()), lvv(a))),
+                    Some(Expr::IncDec { lv: r, post: true, inc: true }),
+                    Box::new(Stmt::Expr(Expr::IncDec { lv: LV::Var(N), post: true, inc: true })),
+                ));
+            }
             16 => {
                 // register holds a known constant, changes by ++ / -- (or is copied), is compared
                 let r = self.reg();
